@@ -19,7 +19,7 @@ AllAst[n \in 1..MaxAllNodes] ==
        \cup UNION {{Thresh(k, <<x, y>>) : k \in {0, 1, 2, 3}, x \in AllAst[i], y \in AllAst[n - 1 - i]} : i \in 1..(n - 2)}
 
 Typed0 == {x.a : x \in {y \in WTUpTo(MaxNodes) : KeyCanonical(y.a)}}
-TypedComp == (CompKept \cup Comp2Kept \cup PrefixedKept \cup LockMix(WrapStride)) \ Typed0
+TypedComp == (CompKept \cup Comp2Kept \cup PrefixedKept \cup LockMix(WrapStride) \cup NestedChoice(NCKeep, CompSeed) \cup ThreshMix(NCKeep)) \ Typed0
 TypedWrap == (({x.a : x \in {y \in WrappedTyped(WrapStride, CompSeed) : KeyCanonical(y.a)}}
                \cup {x.a : x \in WrappedConj(WrapStride)}) \ Typed0) \ TypedComp
 Typed == Typed0 \cup TypedComp \cup TypedWrap
